@@ -1678,6 +1678,10 @@ class Context:
                 if is_superrun:
                     # In case the checking about allow_superrun shows error
                     p.allow_superrun = True
+                # Register the temporary plugin in a copy of this context: the registry of this
+                # context may be in use by other threads (e.g. when loading multiple runs)
+                # noinspection PyMethodFirstArgAssignment
+                self = self.new_context()
                 self.register(p)
                 targets = (temp_name,)
             elif not allow_multiple or processor is strax.SingleThreadProcessor:
